@@ -1,4 +1,5 @@
 import LolHtml.Lemmas.TagEmit
+import LolHtml.Lemmas.TagBreak
 import LolHtml.Lemmas.Preserve
 import LolHtml.Model.AttrsApi
 import LolHtml.Gen.Syntax
@@ -80,7 +81,8 @@ theorem C16_outline (env : Env κ) (hok : TagStatesOk env.tbl = true) (inp : Byt
   rw [data_of_ok hok] at hs
   subst st np r ls
   let F : Frame κ := ⟨il, ca, lsh, ltt, i, cnt, fd, x⟩
-  obtain ⟨k, cJ, lJ, tr, hF, htr, hk, hrun⟩ := run_startTag hok F i rfl en cq hq tps ct cattr (.finished t) hspec
+  obtain ⟨k, cJ, lJ, tr, hF, htr, hk, hrun⟩ :=
+    run_startTag hok F i rfl en cq hq tps ct cattr (.inl t) (startTagRun_of_finished hspec)
   refine ⟨k, cJ, lJ, tr, hk, ⟨hF.nextPos, hF.ls, hF.curTag, hF.isLast, hF.cdata, hF.lsh, hF.ltt, ?_⟩, htr, hrun⟩
   intro l' hl'
   simp only [Regs.lexer.injEq] at hl'
@@ -104,8 +106,11 @@ theorem C16_outline_unfinished (env : Env κ) (hok : TagStatesOk env.tbl = true)
   rw [data_of_ok hok] at hs
   subst st np r ls
   let F : Frame κ := ⟨il, ca, lsh, ltt, i, cnt, fd, x⟩
-  obtain ⟨k, cE, lE, e1, e2, _, _, _, e6, hrun⟩ := run_startTag hok F i rfl en cq hq tps ct cattr .unfinished hspec
-  exact ⟨k, cE, lE, e1, e2, e6, hrun⟩
+  obtain ⟨mid, hmidspec⟩ := startTagRun_of_unfinished hspec
+  obtain ⟨k, m', hmid, hrun⟩ := run_startTag hok F i rfl en cq hq tps ct cattr (.inr mid) hmidspec
+  obtain ⟨cE, lE, hstep, e1, e2, e6⟩ := mid_endStep hok F _ _ mid m' hmid
+  refine ⟨k, cE, lE, e1, e2, e6, fun fuel => ?_⟩
+  rw [show k + 1 + fuel = k + (fuel + 1) by omega, hrun (fuel + 1), runLoop_succ, hstep]
 
 /-- **C16_outline_break.** The first half of "a tag across a chunk boundary": when the slice is not the last
 one and ends inside the tag, the run ends with `endOfInput i` — exactly the bytes before `<` are consumed, the tag is kept
@@ -138,20 +143,50 @@ theorem C16_outline_break (env : Env κ) (hok : TagStatesOk env.tbl = true) (inp
   simp only [cont]
   congr 3
 
-/-- The second half, stated, not proved: the run on the next slice `inp.drop i ++ more` from the machine of
-`C16_outline_break` reaches `emit_tag` with the outline `Spec.Attrs` reads from `inp ++ more` at `i`, re-based by `i`
-(so that `base + outline` is the same document range). Missing: the composition of `Spec.Attrs.attrs` over `inp ++ more`
-and its translation by `i`; `run_attrs` already covers an arbitrary mid-tag machine related to an arbitrary spec state. -/
-def C16_outline_across_break_statement (κ : Type) : Prop :=
-  ∀ (env : Env κ), TagStatesOk env.tbl = true → ∀ (inp more : Bytes) (i : Nat) (m : M κ), AtTagStart env.tbl m i →
-    m.c.isLast = false → startTagAt inp i = some .unfinished →
-    ∀ t, startTagAt (inp ++ more) i = some (.finished t) →
-    ∃ k1 m1, (∀ fuel, runLoop env inp (k1 + 1 + fuel) m = (m1, .endOfInput i)) ∧
-      ∀ il2 : Bool, ∃ (k : Nat) (cJ : Common) (lJ : LexRegs) (tr : Model.Trans), cJ.nextPos = t.stop - i ∧ lJ.lexemeStart = 0 ∧
+/-- **C16_outline_across_break.** A tag that straddles two input slices. The slice `inp` is not the last one and
+ends inside the tag starting at `i`; `more` is what arrives next, and `Spec.Attrs`, reading `inp ++ more`, finds the
+tag finished (`t`). Then: the run on `inp` ends with `endOfInput i` (the bytes before `<` are consumed, the parser
+context is untouched), so the next slice is `inp.drop i ++ more`; and from the machine that run leaves behind, with the
+`is_last` flag of the next slice, the run reaches `emit_tag` after `k + 1 ≤ 2·(t.stop − |inp|)` calls with
+`lexeme_start = 0`, `pos + 1 = t.stop − i` and the spec's outline re-based by `i` (`Align`): name range, hash of the name
+bytes, attribute outlines in order, self-closing flag. With `C14_offset` (`prevConsumed` grew by `i`) the lexeme denotes the
+same document range `[prevConsumed + i, prevConsumed + t.stop)` and the same attribute locations as in one slice. -/
+theorem C16_outline_across_break (env : Env κ) (hok : TagStatesOk env.tbl = true) (inp more : Bytes) (i : Nat) (m : M κ)
+    (hm : AtTagStart env.tbl m i) (hlast : m.c.isLast = false) (hspec1 : startTagAt inp i = some .unfinished)
+    (t : Tag) (hspec : startTagAt (inp ++ more) i = some (.finished t)) (il2 : Bool) :
+    ∃ k1 m1, (∀ fuel, runLoop env inp (k1 + 1 + fuel) m = (m1, .endOfInput i)) ∧ m1.x = m.x ∧
+      ∃ (k : Nat) (cJ : Common) (lJ : LexRegs) (tr : Model.Trans), k < 2 * (t.stop - inp.length) ∧
+        cJ.nextPos = t.stop - i ∧ cJ.isLast = il2 ∧ lJ.lexemeStart = 0 ∧
         lJ.curTag = some (.startTag (t.name.align i) (NameHash.ofBytes (slice (inp ++ more) t.name.start t.name.end)) .html
           (t.attrs.map (·.align i)) t.selfClosing) ∧
+        (tr = .gotoDyn ∨ tr = trans36 env.tbl) ∧
         ∀ fuel, runLoop env (inp.drop i ++ more) (k + 1 + fuel) { m1 with c := { m1.c with isLast := il2 } } =
-          cont env (inp.drop i ++ more) fuel (finish env tr (lexEmitTag env (inp.drop i ++ more) cJ lJ m.x))
+          cont env (inp.drop i ++ more) fuel (finish env tr (lexEmitTag env (inp.drop i ++ more) cJ lJ m.x)) := by
+  obtain ⟨hs, hp, ⟨l, hl, hls⟩, hq⟩ := hm
+  obtain ⟨c, r, x⟩ := m
+  obtain ⟨np, il, st, en, ca, lsh, cq, ltt⟩ := c
+  obtain ⟨ls, tps, ct, cnt, cattr, fd⟩ := l
+  simp only at hs hp hl hls hq hlast
+  rw [data_of_ok hok] at hs
+  subst st np r ls il
+  let F : Frame κ := ⟨false, ca, lsh, ltt, i, cnt, fd, x⟩
+  obtain ⟨mid, hmidspec⟩ := startTagRun_of_unfinished hspec1
+  obtain ⟨k1, mA, hrun1, hx, k, cJ, lJ, tr, hF, htr, hk, hrun2⟩ :=
+    run_across_break hok F i rfl rfl en cq hq tps ct cattr more mid hmidspec t hspec il2
+  have hi : i + 2 ≤ inp.length := by
+    unfold startTagAt at hspec1
+    split at hspec1
+    · rename_i hd
+      have := congrArg List.length hd
+      simp only [List.length_drop, List.length_cons] at this
+      omega
+    · simp at hspec1
+  obtain ⟨_, _, _, w4, _, _⟩ := startTagAt_wf _ _ _ hspec
+  refine ⟨k1, mA, hrun1, hx, k, cJ, lJ, tr, ?_, ?_, hF.isLast, hF.ls, hF.curTag, htr, hrun2⟩
+  · have : (t.align i).stop = t.stop - i := alignNat_ge (by omega)
+    rw [this] at hk
+    omega
+  · rw [hF.nextPos]; exact alignNat_ge (by omega)
 
 /-- the end-of-input step never calls `handle_tag`: whatever the sink, its state afterwards is the old
 one, or the old one after `handle_non_tag_content` of the raw bytes and then possibly of the EOF lexeme -/
@@ -424,6 +459,22 @@ example : startTagAt [60,97,32,98,61,39,99] 0 = some .unfinished := by decide +k
 example : (runLoop ⟨Gen.Syntax.table, Gen.Tags.cfg, recOps⟩ [60,97,32,98,61,39,99] 40
       ⟨{ state := 2, isLast := true }, .lexer {}, { sink := [], sim := Sim.new false }⟩).1.x.sink =
     [.nonTag ⟨0, ⟨0, 7⟩, none⟩, .nonTag ⟨0, ⟨7, 7⟩, some .eof⟩] := by decide +kernel
+
+/-- across a break: `xy<a b='c` then ` d'>`, the tag starting at 2 (the text `xy` already handed over) -/
+def brk1 : Bytes := [120,121,60,97,32,98,61,39,99]
+def brk2 : Bytes := [32,100,39,62]
+def mBrk : M (List Lexeme) := ⟨{ state := 2, nextPos := 2 }, .lexer { lexemeStart := 2 }, { sink := [], sim := Sim.new false }⟩
+
+example : AtTagStart Gen.Syntax.table mBrk 2 := ⟨rfl, rfl, ⟨_, rfl, rfl⟩, Or.inl rfl⟩
+example : startTagAt brk1 2 = some .unfinished := by decide +kernel
+example : startTagAt (brk1 ++ brk2) 2 = some (.finished ⟨⟨3,4⟩, [⟨⟨5,6⟩,⟨8,11⟩,⟨5,12⟩⟩], false, 13⟩) := by decide +kernel
+/-- first slice: nothing emitted, 2 bytes consumed … -/
+example : (runLoop ⟨Gen.Syntax.table, Gen.Tags.cfg, recOps⟩ brk1 40 mBrk).2 = .endOfInput 2 ∧
+    (runLoop ⟨Gen.Syntax.table, Gen.Tags.cfg, recOps⟩ brk1 40 mBrk).1.x.sink = [] := by decide +kernel
+/-- … second slice `<a b='c d'>`: the spec's outline re-based by 2 -/
+example : (runLoop ⟨Gen.Syntax.table, Gen.Tags.cfg, recOps⟩ (brk1.drop 2 ++ brk2) 40
+      (runLoop ⟨Gen.Syntax.table, Gen.Tags.cfg, recOps⟩ brk1 40 mBrk).1).1.x.sink =
+    [.tag ⟨0, ⟨0, 11⟩, .startTag ⟨1,2⟩ (NameHash.ofBytes [97]) .html [⟨⟨3,4⟩,⟨6,9⟩,⟨3,10⟩⟩] false⟩] := by decide +kernel
 
 /-! ## C16_lookup — `get_attribute` / `has_attribute` / `attributes()` / `tag_name()` on the token -/
 
